@@ -32,7 +32,7 @@ TEXT_NAMES = ["foo", "_priv", "__secret", "__add__", "__len__", "next", "PFXfoo"
               "__class__", "meth", "_pmeth", "__dict__", "__init__", "é", "_mid_PFXfoo", "midPFX"]
 ODD_NAMES = [b"foo", b"_priv", b"meth", b"\xff\xfe", 5, None, ("foo",), 1.5, ["foo"], True]
 PLAIN_SHAPES = [(True, False), (False, True), (True, True), (False, False)]
-SPECIAL_SHAPES = ["hooks", "partial_hooks", "restricted", "service", "classobj"]
+SPECIAL_SHAPES = ["hooks", "partial_hooks", "restricted", "restricted_ro", "restricted_ro_list", "restricted_same", "service", "classobj"]
 NOT_JUDGED_READS = {"__class__", "__dict__", "__init__"}
 
 
@@ -143,11 +143,18 @@ def build(shape, name, prefix, k):
         obj = PartialHooked(log)
         populate(lambda n, v: object.__setattr__(obj, n, v), log, name, prefix, True, True, k)
         return obj, log
-    if shape == "restricted":
+    if type(shape) is str and shape.startswith("restricted"):
         target = Canary(log)
         for n in ("foo", "bar", "meth", "_priv", "exposed_foo"):
             object.__setattr__(target, n, make_callable(log, n) if n == "meth" else secret(n, k))
-        view = restricted(target, {"foo", "meth"}, {"bar"})
+        if shape == "restricted":
+            view = restricted(target, {"foo", "meth"}, {"bar"})
+        elif shape == "restricted_ro":
+            view = restricted(target, {"foo", "meth"}, ())          # documented read-only form
+        elif shape == "restricted_ro_list":
+            view = restricted(target, ["foo", "meth"], [])
+        else:
+            view = restricted(target, {"foo", "meth"})               # wattrs defaults to attrs
         return view, log
     if shape == "service":
         class Svc(rpyc.Service):
@@ -288,8 +295,9 @@ def decide(ctx, pair, cfg, prefix, name, shape, op, k):
             ctx.violation("C06/hooks-outcome/" + op, "hook decided %r but the peer saw %r" % (want, got), wit)
         ctx.count("hook_decisions")
         return
-    if shape == "restricted":
-        judge_restricted(ctx, r, eff, op, real_name, value, cargs, ckw, k, wit)
+    if type(shape) is str and shape.startswith("restricted"):
+        writable = {"restricted": {"bar"}, "restricted_ro": set(), "restricted_ro_list": set(), "restricted_same": {"foo", "meth"}}[shape]
+        judge_restricted(ctx, r, eff, op, real_name, value, cargs, ckw, k, wit, writable)
         return
     if shape == "service" and op in ("set", "del"):
         if not builtin_exc(r, AttributeError) or eff:
@@ -341,7 +349,7 @@ def decide(ctx, pair, cfg, prefix, name, shape, op, k):
         ctx.violation("C06/wrong-attribute-touched/" + vkey, "effects on the owner's object %r differ from direct access to %r: %r" % (e1[:3], resolved, e2[:3]), wit)
 
 
-def judge_restricted(ctx, r, eff, op, name, value, cargs, ckw, k, wit):
+def judge_restricted(ctx, r, eff, op, name, value, cargs, ckw, k, wit, writable=frozenset(["bar"])):
     ctx.count("restricted_decisions")
     touched = [e for e in eff if e[0] in ("set", "del", "call")]
     if op == "get":
@@ -365,8 +373,8 @@ def judge_restricted(ctx, r, eff, op, name, value, cargs, ckw, k, wit):
         elif r[0] != "exc" or touched:
             ctx.violation("C06/restricted/call-unlisted", "unlisted name called through the view: %r %r" % (r, touched), wit)
     elif op == "set":
-        if name == "bar":
-            if r[0] != "ok" or touched != [("set", "bar", value)]:
+        if name in writable:
+            if r[0] != "ok" or touched != [("set", name, value)]:
                 ctx.violation("C06/restricted/write-listed", "listed attribute not writable: %r %r" % (r, touched), wit)
         elif r[0] != "exc" or not issubclass(r[1], AttributeError) or touched:
             ctx.violation("C06/restricted/write-unlisted", "attribute %r written through a view that does not list it: %r %r" % (name, r, touched), wit)
@@ -396,20 +404,21 @@ def decisions_for(rng, full):
     if full:
         for n in names:
             for sh in shapes:
-                if sh == "restricted":
+                if type(sh) is str and sh.startswith("restricted"):
                     continue
                 for op in OPS:
                     yield n, sh, op
-        for n in ["foo", "bar", "meth", "_priv", "exposed_foo", "ghost", b"foo", 5]:
-            for op in OPS:
-                yield n, "restricted", op
+        for rs in ("restricted", "restricted_ro", "restricted_ro_list", "restricted_same"):
+            for n in ["foo", "bar", "meth", "_priv", "exposed_foo", "ghost", b"foo", 5]:
+                for op in OPS:
+                    yield n, rs, op
         for n in ["denyme", "meth"]:
             for op in OPS:
                 yield n, "hooks", op
     else:
         for _ in range(30):
             sh = rng.choice(shapes) if rng.random() < .45 else rng.choice(PLAIN_SHAPES)
-            if sh == "restricted":
+            if type(sh) is str and sh.startswith("restricted"):
                 n = rng.choice(["foo", "bar", "meth", "_priv", "exposed_foo", "ghost", b"foo", 5])
             elif sh == "hooks":
                 n = rng.choice(TEXT_NAMES + ODD_NAMES + ["denyme", "meth"])
